@@ -275,8 +275,15 @@ pub fn run(ctx: Ctx) -> Report {
             let c = client.clone();
             let permit = sem.clone().acquire_owned().await.unwrap();
             set.spawn(async move {
-                let r = association(c, ip, up.clone(), down.clone(), s).await;
+                let mut r = association(c.clone(), ip, up.clone(), down.clone(), s).await;
                 drop(permit);
+                if matches!(&r, Ok((p, _)) if p.iter().any(|x| x.0 == "datagram_never_delivered")) || r.is_err() {
+                    // a 6 s wait expired while 8 associations ran at once: confirm alone
+                    let again = association(c, ip, up.clone(), down.clone(), s).await;
+                    if again.is_ok() {
+                        r = again;
+                    }
+                }
                 (ip, up, down, s, r)
             });
         }
